@@ -543,3 +543,108 @@ int lemma_evplus_mod_shortcuts_pw(struct forest *f1, struct forest *f2, const st
 }
 void h_evplus_mod_shortcuts_pw(void) { struct forest *f1, *f2; struct edge_value *x, *y; node_handle w_ap = nondet_int(), w_bp = nondet_int(); long w_da = nondet_long(), w_db = nondet_long(); w_av = nondet_long(); w_bv = nondet_long(); _Bool w_dai = nondet_bool(), w_dbi = nondet_bool();
     lemma_evplus_mod_shortcuts_pw(f1, f2, x, w_ap, y, w_bp, w_da, w_dai, w_db, w_dbi); CANARY(); }
+int lemma_mt_plus_shortcuts_pw(struct forest *fa, struct forest *fb, struct forest *fc, node_handle a, node_handle b, node_handle pa, node_handle pb)
+{
+    int ok = 0;
+    node_handle va = a > 0 ? pa : a, vb = b > 0 ? pb : b, c;     /* the operands' values at the assignment, as terminal handles */
+    { node_handle a1 = a; c = 0;
+      if (mt_plus__simplifiesToFirstArg(0, fa, &a1, fb, b)) {
+          if (a1 == a || a1 <= 0) { node_handle want = a1 > 0 ? pa : a1; mt_plus__apply(fa, va, fb, vb, fc, &c); if (verif_exc == 0 && c == want) ok |= 1; verif_exc = 0; }
+      } else ok |= 1; }
+    { node_handle b1 = b; c = 0;
+      if (mt_plus__simplifiesToSecondArg(0, fa, a, fb, &b1)) {
+          if (b1 == b || b1 <= 0) { node_handle want = b1 > 0 ? pb : b1; mt_plus__apply(fa, va, fb, vb, fc, &c); if (verif_exc == 0 && c == want) ok |= 2; verif_exc = 0; }
+      } else ok |= 2; }
+    return ok;
+}
+void h_mt_plus_shortcuts_pw(void) { struct forest *fa, *fb, *fc; node_handle w_a = nondet_int(), w_b = nondet_int(), w_pa = nondet_int(), w_pb = nondet_int(); lemma_mt_plus_shortcuts_pw(fa, fb, fc, w_a, w_b, w_pa, w_pb); CANARY(); }
+int lemma_mt_minus_shortcuts_pw(struct forest *fa, struct forest *fb, struct forest *fc, node_handle a, node_handle b, node_handle pa, node_handle pb)
+{
+    int ok = 0;
+    node_handle va = a > 0 ? pa : a, vb = b > 0 ? pb : b, c;     /* the operands' values at the assignment, as terminal handles */
+    { node_handle a1 = a; c = 0;
+      if (mt_minus__simplifiesToFirstArg(0, fa, &a1, fb, b)) {
+          if (a1 == a || a1 <= 0) { node_handle want = a1 > 0 ? pa : a1; mt_minus__apply(fa, va, fb, vb, fc, &c); if (verif_exc == 0 && c == want) ok |= 1; verif_exc = 0; }
+      } else ok |= 1; }
+    { node_handle b1 = b; c = 0;
+      if (mt_minus__simplifiesToSecondArg(0, fa, a, fb, &b1)) {
+          if (b1 == b || b1 <= 0) { node_handle want = b1 > 0 ? pb : b1; mt_minus__apply(fa, va, fb, vb, fc, &c); if (verif_exc == 0 && c == want) ok |= 2; verif_exc = 0; }
+      } else ok |= 2; }
+    return ok;
+}
+void h_mt_minus_shortcuts_pw(void) { struct forest *fa, *fb, *fc; node_handle w_a = nondet_int(), w_b = nondet_int(), w_pa = nondet_int(), w_pb = nondet_int(); lemma_mt_minus_shortcuts_pw(fa, fb, fc, w_a, w_b, w_pa, w_pb); CANARY(); }
+int lemma_mt_mult_shortcuts_pw(struct forest *fa, struct forest *fb, struct forest *fc, node_handle a, node_handle b, node_handle pa, node_handle pb)
+{
+    int ok = 0;
+    node_handle va = a > 0 ? pa : a, vb = b > 0 ? pb : b, c;     /* the operands' values at the assignment, as terminal handles */
+    { node_handle a1 = a; c = 0;
+      if (mt_mult__simplifiesToFirstArg(0, fa, &a1, fb, b)) {
+          if (a1 == a || a1 <= 0) { node_handle want = a1 > 0 ? pa : a1; mt_mult__apply(fa, va, fb, vb, fc, &c); if (verif_exc == 0 && c == want) ok |= 1; verif_exc = 0; }
+      } else ok |= 1; }
+    { node_handle b1 = b; c = 0;
+      if (mt_mult__simplifiesToSecondArg(0, fa, a, fb, &b1)) {
+          if (b1 == b || b1 <= 0) { node_handle want = b1 > 0 ? pb : b1; mt_mult__apply(fa, va, fb, vb, fc, &c); if (verif_exc == 0 && c == want) ok |= 2; verif_exc = 0; }
+      } else ok |= 2; }
+    return ok;
+}
+void h_mt_mult_shortcuts_pw(void) { struct forest *fa, *fb, *fc; node_handle w_a = nondet_int(), w_b = nondet_int(), w_pa = nondet_int(), w_pb = nondet_int(); lemma_mt_mult_shortcuts_pw(fa, fb, fc, w_a, w_b, w_pa, w_pb); CANARY(); }
+int lemma_mt_div_shortcuts_pw(struct forest *fa, struct forest *fb, struct forest *fc, node_handle a, node_handle b, node_handle pa, node_handle pb)
+{
+    int ok = 0;
+    node_handle va = a > 0 ? pa : a, vb = b > 0 ? pb : b, c;     /* the operands' values at the assignment, as terminal handles */
+    { node_handle a1 = a; c = 0;
+      if (mt_div__simplifiesToFirstArg(0, fa, &a1, fb, b)) {
+          if (a1 == a || a1 <= 0) { node_handle want = a1 > 0 ? pa : a1; mt_div__apply(fa, va, fb, vb, fc, &c); if (verif_exc == 0 && c == want) ok |= 1; verif_exc = 0; }
+      } else ok |= 1; }
+    { node_handle b1 = b; c = 0;
+      if (mt_div__simplifiesToSecondArg(0, fa, a, fb, &b1)) {
+          if (b1 == b || b1 <= 0) { node_handle want = b1 > 0 ? pb : b1; mt_div__apply(fa, va, fb, vb, fc, &c); if (verif_exc == 0 && c == want) ok |= 2; verif_exc = 0; }
+      } else ok |= 2; }
+    return ok;
+}
+void h_mt_div_shortcuts_pw(void) { struct forest *fa, *fb, *fc; node_handle w_a = nondet_int(), w_b = nondet_int(), w_pa = nondet_int(), w_pb = nondet_int(); lemma_mt_div_shortcuts_pw(fa, fb, fc, w_a, w_b, w_pa, w_pb); CANARY(); }
+int lemma_mt_mod_shortcuts_pw(struct forest *fa, struct forest *fb, struct forest *fc, node_handle a, node_handle b, node_handle pa, node_handle pb)
+{
+    int ok = 0;
+    node_handle va = a > 0 ? pa : a, vb = b > 0 ? pb : b, c;     /* the operands' values at the assignment, as terminal handles */
+    { node_handle a1 = a; c = 0;
+      if (mt_mod__simplifiesToFirstArg(0, fa, &a1, fb, b)) {
+          if (a1 == a || a1 <= 0) { node_handle want = a1 > 0 ? pa : a1; mt_mod__apply(fa, va, fb, vb, fc, &c); if (verif_exc == 0 && c == want) ok |= 1; verif_exc = 0; }
+      } else ok |= 1; }
+    { node_handle b1 = b; c = 0;
+      if (mt_mod__simplifiesToSecondArg(0, fa, a, fb, &b1)) {
+          if (b1 == b || b1 <= 0) { node_handle want = b1 > 0 ? pb : b1; mt_mod__apply(fa, va, fb, vb, fc, &c); if (verif_exc == 0 && c == want) ok |= 2; verif_exc = 0; }
+      } else ok |= 2; }
+    return ok;
+}
+void h_mt_mod_shortcuts_pw(void) { struct forest *fa, *fb, *fc; node_handle w_a = nondet_int(), w_b = nondet_int(), w_pa = nondet_int(), w_pb = nondet_int(); lemma_mt_mod_shortcuts_pw(fa, fb, fc, w_a, w_b, w_pa, w_pb); CANARY(); }
+int lemma_mt_max_shortcuts_pw(struct forest *fa, struct forest *fb, struct forest *fc, node_handle a, node_handle b, node_handle pa, node_handle pb)
+{
+    int ok = 0;
+    node_handle va = a > 0 ? pa : a, vb = b > 0 ? pb : b, c;     /* the operands' values at the assignment, as terminal handles */
+    { node_handle a1 = a; c = 0;
+      if (mt_max__simplifiesToFirstArg(0, fa, &a1, fb, b)) {
+          if (a1 == a || a1 <= 0) { node_handle want = a1 > 0 ? pa : a1; mt_max__apply(fa, va, fb, vb, fc, &c); if (verif_exc == 0 && c == want) ok |= 1; verif_exc = 0; }
+      } else ok |= 1; }
+    { node_handle b1 = b; c = 0;
+      if (mt_max__simplifiesToSecondArg(0, fa, a, fb, &b1)) {
+          if (b1 == b || b1 <= 0) { node_handle want = b1 > 0 ? pb : b1; mt_max__apply(fa, va, fb, vb, fc, &c); if (verif_exc == 0 && c == want) ok |= 2; verif_exc = 0; }
+      } else ok |= 2; }
+    return ok;
+}
+void h_mt_max_shortcuts_pw(void) { struct forest *fa, *fb, *fc; node_handle w_a = nondet_int(), w_b = nondet_int(), w_pa = nondet_int(), w_pb = nondet_int(); lemma_mt_max_shortcuts_pw(fa, fb, fc, w_a, w_b, w_pa, w_pb); CANARY(); }
+int lemma_mt_min_shortcuts_pw(struct forest *fa, struct forest *fb, struct forest *fc, node_handle a, node_handle b, node_handle pa, node_handle pb)
+{
+    int ok = 0;
+    node_handle va = a > 0 ? pa : a, vb = b > 0 ? pb : b, c;     /* the operands' values at the assignment, as terminal handles */
+    { node_handle a1 = a; c = 0;
+      if (mt_min__simplifiesToFirstArg(0, fa, &a1, fb, b)) {
+          if (a1 == a || a1 <= 0) { node_handle want = a1 > 0 ? pa : a1; mt_min__apply(fa, va, fb, vb, fc, &c); if (verif_exc == 0 && c == want) ok |= 1; verif_exc = 0; }
+      } else ok |= 1; }
+    { node_handle b1 = b; c = 0;
+      if (mt_min__simplifiesToSecondArg(0, fa, a, fb, &b1)) {
+          if (b1 == b || b1 <= 0) { node_handle want = b1 > 0 ? pb : b1; mt_min__apply(fa, va, fb, vb, fc, &c); if (verif_exc == 0 && c == want) ok |= 2; verif_exc = 0; }
+      } else ok |= 2; }
+    return ok;
+}
+void h_mt_min_shortcuts_pw(void) { struct forest *fa, *fb, *fc; node_handle w_a = nondet_int(), w_b = nondet_int(), w_pa = nondet_int(), w_pb = nondet_int(); lemma_mt_min_shortcuts_pw(fa, fb, fc, w_a, w_b, w_pa, w_pb); CANARY(); }
